@@ -1,6 +1,6 @@
 (* C11 -- property theorems only.  Proofs live in C11/Proofs*.v. *)
 From Coq Require Import NArith List Bool.
-From DV Require Import Base.Outcome Base.Bytes Base.Names C11.Gen C11.Model C11.Proofs C11.Proofs2 C11.Proofs3.
+From DV Require Import Base.Outcome Base.Bytes Base.Names Base.PName C11.Gen C11.Model C11.Proofs C11.Proofs2 C11.Proofs3 C11.Frame C11.Proofs4 C11.Proofs5.
 Import ListNotations.
 Local Open Scope N_scope.
 
@@ -32,44 +32,8 @@ Theorem C11_truncation_bounds : forall a mn sg m s,
 Proof. exact calculate_bounds_ok. Qed.
 Print Assumptions C11_truncation_bounds.
 
-Theorem C11_sign_verify_request : forall mac,
-  (forall a k d, len (mac a k d) = native_len a) ->
-  forall ks kr msg t fudge now c w tl out,
-  same_key ks kr -> k_min kr <= k_sign ks -> within_len_bounds (k_alg ks) (k_sign ks) = true ->
-  client_request mac ks msg t fudge = Ok (c, w) ->
-  reads_back w msg (k_name ks) (k_alg ks) (Vars t fudge RC_NOERROR None)
-             (signature_slice ks (ctx_sign mac ks (digest_full ks [] msg (Vars t fudge RC_NOERROR None)))) tl ->
-  remove_tsig w tl = Ok out ->
-  is_valid_at t fudge now = true ->
-  server_request mac kr w now = Ok (SrvOk c out).
-Proof. exact sign_verify_request. Qed.
-Print Assumptions C11_sign_verify_request.
 
-Theorem C11_request_outside_window_badtime : forall mac,
-  (forall a k d, len (mac a k d) = native_len a) ->
-  forall ks kr msg t fudge now c w tl,
-  same_key ks kr -> k_min kr <= k_sign ks -> within_len_bounds (k_alg ks) (k_sign ks) = true ->
-  client_request mac ks msg t fudge = Ok (c, w) ->
-  reads_back w msg (k_name ks) (k_alg ks) (Vars t fudge RC_NOERROR None)
-             (signature_slice ks (ctx_sign mac ks (digest_full ks [] msg (Vars t fudge RC_NOERROR None)))) tl ->
-  is_valid_at t fudge now = false ->
-  server_request mac kr w now = Ok (SrvBadTime c (Vars t fudge RC_BADTIME (Some now))).
-Proof. exact request_outside_window_badtime. Qed.
-Print Assumptions C11_request_outside_window_badtime.
 
-Theorem C11_sign_verify_answer : forall mac,
-  (forall a k d, len (mac a k d) = native_len a) ->
-  forall ks kr c msg t fudge now w tl out,
-  same_key ks kr -> k_min kr <= k_sign ks -> within_len_bounds (k_alg ks) (k_sign ks) = true ->
-  server_answer mac ks c msg t fudge = Ok w ->
-  reads_back w msg (k_name ks) (k_alg ks) (Vars t fudge RC_NOERROR None)
-             (signature_slice ks (ctx_sign mac ks (digest_full ks c msg (Vars t fudge RC_NOERROR None)))) tl ->
-  remove_tsig w tl = Ok out ->
-  (hdr_rcode w =? RC_NOTAUTH) = false ->
-  is_valid_at t fudge now = true ->
-  client_answer mac kr c w now = Ok out.
-Proof. exact sign_verify_answer. Qed.
-Print Assumptions C11_sign_verify_answer.
 
 Theorem C11_mac_mismatch_is_badsig : forall mac k w now t sm a,
   from_message w = Ok t -> alg_from_name (mt_algname t) = Some a -> store_get k (mt_owner t) a = true ->
@@ -169,3 +133,58 @@ Theorem C11_digest_timers_injective : forall k pm pm' msg msg' v v',
   pm = pm' /\ msg = msg' /\ v_time v = v_time v' /\ v_fudge v = v_fudge v'.
 Proof. exact digest_timers_injective. Qed.
 Print Assumptions C11_digest_timers_injective.
+
+(* The three sign/verify theorems below have no framing premise any more: the
+   parser finding the record that push_tsig wrote is proved (Proofs4) for every
+   laid out message MsgAt msg nq an ns ar. *)
+Theorem C11_sign_verify_request : forall mac,
+  (forall a k d, len (mac a k d) = native_len a) ->
+  forall ks kr msg nq an ns ar t fudge now c w,
+  same_key ks kr -> k_min kr <= k_sign ks -> within_len_bounds (k_alg ks) (k_sign ks) = true ->
+  MsgAt msg nq an ns ar -> name_ok (k_name ks) -> t < T48_LIMIT -> fudge < 65536 ->
+  client_request mac ks msg t fudge = Ok (c, w) ->
+  is_valid_at t fudge now = true ->
+  exists rr, w = set_arcount msg (arcount msg + 1) ++ rr /\
+    server_request mac kr w now = Ok (SrvOk c (msg ++ rr)).
+Proof. exact sign_verify_request_full. Qed.
+Print Assumptions C11_sign_verify_request.
+
+Theorem C11_request_outside_window_badtime : forall mac,
+  (forall a k d, len (mac a k d) = native_len a) ->
+  forall ks kr msg nq an ns ar t fudge now c w,
+  same_key ks kr -> k_min kr <= k_sign ks -> within_len_bounds (k_alg ks) (k_sign ks) = true ->
+  MsgAt msg nq an ns ar -> name_ok (k_name ks) -> t < T48_LIMIT -> fudge < 65536 ->
+  client_request mac ks msg t fudge = Ok (c, w) ->
+  is_valid_at t fudge now = false ->
+  server_request mac kr w now = Ok (SrvBadTime c (Vars t fudge RC_BADTIME (Some now))).
+Proof. exact request_outside_window_badtime_full. Qed.
+Print Assumptions C11_request_outside_window_badtime.
+
+Theorem C11_sign_verify_answer : forall mac,
+  (forall a k d, len (mac a k d) = native_len a) ->
+  forall ks kr c msg nq an ns ar t fudge now w,
+  same_key ks kr -> k_min kr <= k_sign ks -> within_len_bounds (k_alg ks) (k_sign ks) = true ->
+  MsgAt msg nq an ns ar -> name_ok (k_name ks) -> t < T48_LIMIT -> fudge < 65536 ->
+  (hdr_rcode msg =? RC_NOTAUTH) = false ->
+  server_answer mac ks c msg t fudge = Ok w ->
+  is_valid_at t fudge now = true ->
+  exists rr, w = set_arcount msg (arcount msg + 1) ++ rr /\
+    client_answer mac kr c w now = Ok (msg ++ rr).
+Proof. exact sign_verify_answer_full. Qed.
+Print Assumptions C11_sign_verify_answer.
+
+Theorem C11_verify_restores_octets : forall k v mc msg nq an ns ar w,
+  MsgAt msg nq an ns ar -> name_ok (k_name k) ->
+  v_time v < T48_LIMIT -> v_fudge v < 65536 -> v_error v < 65536 -> v_other v = None ->
+  push_tsig k v mc msg = Ok w ->
+  exists rr t, w = set_arcount msg (arcount msg + 1) ++ rr /\
+    from_message w = Ok t /\ mt_start t = mlen msg /\ mt_mac t = mc /\ mt_oid t = hdr_id msg /\
+    stripped w t = Ok msg /\
+    remove_tsig w t = Ok (msg ++ rr) /\
+    firstn (length msg) (msg ++ rr) = msg /\ arcount (msg ++ rr) = arcount msg.
+Proof. exact verify_restores_octets. Qed.
+Print Assumptions C11_verify_restores_octets.
+
+Theorem C11_from_message_no_fuel : forall m, wf_bytes m -> 12 <= mlen m -> from_message m <> OutOfFuel.
+Proof. exact from_message_no_fuel. Qed.
+Print Assumptions C11_from_message_no_fuel.
